@@ -43,7 +43,7 @@ def pool_print_instances(thorough):
     u5 = {"unit_s": 5, "set_vars": True}
     out = [
         ("core", _pool_consts(sock=2, ln=2, dial=1), u5),
-        ("assoc", _pool_consts(sock=3, ln=2, dial=1, protos=("a",), assocs=("x",), addrs="AddrsA0"), u5),
+        ("assoc", _pool_consts(sock=3, ln=2, dial=1, protos=("a",), assocs=("x",), addrs="AddrsA0", kinds=("tfd", "dq")), u5),
         ("unicast", _pool_consts(sock=2, ln=2, dial=1, protos=("a",), addrs="AddrsA0U0", uips=("u1",)), u5),
         ("dq", _pool_consts(sock=2, ln=1, dial=1, share=1, lend=1, protos=("a",), addrs="AddrsA1", kinds=("dq",)), u5),
         ("pref", _pool_consts(sock=2, ln=1, dial=2, protos=("a",), addrs="AddrsA1"), u5),
